@@ -157,27 +157,20 @@ fn read_exact_stub(_f: &std::fs::File, offset: u64, size: usize) -> std::io::Res
     Ok(Slice::from(v))
 }
 
-#[kani::proof]
-#[kani::unwind(38)]
-#[kani::stub(std::alloc::handle_alloc_error, crate::vk_common::alloc_err_stub)]
-#[kani::stub(alloc::fmt::format, crate::vk_common::format_stub)]
-#[kani::stub(crate::file::read_exact, read_exact_stub)]
-fn o10_2_block_from_file() {
+/// handle (offset, size) concrete per instance (a symbolic size makes every later offset symbolic);
+/// corrupted byte index and mask symbolic (mask 0 = intact).
+fn o10_2<const OFF: u64, const SIZE: u32>() {
     let (payload, bt, buf) = written_block();
     let idx: usize = kani::any();
     kani::assume(idx < TOTAL);
-    let mask: u8 = kani::any(); // 0 = intact
+    let mask: u8 = kani::any();
     let mut i = 0;
     while i < TOTAL {
         unsafe { FILE[i] = buf[i] ^ if i == idx { mask } else { 0 } };
         i += 1;
     }
-    // the block handle comes from the (checksummed) index; also try a wrong offset / size
-    let off: u64 = kani::any();
-    let size: u32 = kani::any();
-    kani::assume(off <= 2 && size as usize <= TOTAL && size as usize >= H);
     let file = unsafe { <std::fs::File as std::os::fd::FromRawFd>::from_raw_fd(1000) };
-    let res = Block::from_file(&file, BlockHandle::new(BlockOffset(off), size), CompressionType::None);
+    let res = Block::from_file(&file, BlockHandle::new(BlockOffset(OFF), SIZE), CompressionType::None);
     match &res {
         Ok(b) => {
             assert!(b.header.block_type == bt, "block type changed");
@@ -187,16 +180,32 @@ fn o10_2_block_from_file() {
                 assert!(b.data[j] == payload[j], "a corrupted / misaddressed block was served as data");
                 j += 1;
             }
+            assert!(mask == 0 && OFF == 0 && SIZE as usize == TOTAL, "a corrupted / misaddressed block was accepted");
         }
-        Err(_) => assert!(mask != 0 || off != 0 || size as usize != TOTAL, "an intact, correctly addressed block was rejected"),
+        Err(_) => assert!(mask != 0 || OFF != 0 || SIZE as usize != TOTAL, "an intact, correctly addressed block was rejected"),
     }
-    kani::cover!(res.is_ok());
-    kani::cover!(res.is_err() && mask == 0 && off == 0, "wrong size detected");
-    kani::cover!(res.is_err() && mask != 0 && off == 0 && size as usize == TOTAL);
+    kani::cover!(res.is_ok() == (OFF == 0 && SIZE as usize == TOTAL));
     std::mem::forget(res);
     std::mem::forget(file);
     std::mem::forget(buf);
 }
+
+macro_rules! from_file {
+    ($name:ident, $off:expr, $size:expr) => {
+        #[kani::proof]
+        #[kani::unwind(38)]
+        #[kani::stub(std::alloc::handle_alloc_error, crate::vk_common::alloc_err_stub)]
+        #[kani::stub(alloc::fmt::format, crate::vk_common::format_stub)]
+        #[kani::stub(crate::file::read_exact, read_exact_stub)]
+        fn $name() {
+            o10_2::<$off, $size>();
+        }
+    };
+}
+from_file!(o10_2_from_file_exact, 0, 37);
+from_file!(o10_2_from_file_short, 0, 36);
+from_file!(o10_2_from_file_shifted, 1, 36);
+from_file!(o10_2_from_file_header_only, 0, 33);
 
 #[kani::proof]
 #[kani::unwind(38)]
